@@ -38,6 +38,8 @@ for props, key in pairs:
 
         fs = set()
         for atom, outcome in v.cfg.guards_at(n):
+            if getattr(atom, "_synthetic", False):
+                continue  # bounds implied by a `for .. in range(..)` header: a loop-form fact, like a while test
             if _under(atom, (ast.Assert,)) is not None:
                 continue  # port-added assert: not a guard of the algorithm
             w = _under(atom, (ast.While,))
